@@ -220,7 +220,18 @@ func vfC31Run(v *vfT, c vfC31Case) {
 		firstDelivered = ((c.Delivery[0] % len(pkts)) + len(pkts)) % len(pkts)
 	}
 	firstIsStart := firstDelivered == 0
-	complete := permutation && withinMaxLate && c.DelayMs == 0 && c.Depack != 3
+	// WithMaxTimeDelay does not void completeness when the limit is comfortably larger than the whole
+	// stream (more than twice its wrap-aware timestamp extent): nothing in it can be "too old".
+	streamTicks := uint64(pkts[len(pkts)-1].ts - c.TS0) // total advance (< 2^31 by construction of the generator)
+	delayTicks := uint64(0)
+	if c.DelayMs > 0 && c.DelayMs <= 40_000_000 {
+		delayTicks = uint64(uint32(int64(90000) * int64(c.DelayMs) / 1000)) // as WithMaxTimeDelay computes it
+	}
+	generousDelay := c.DelayMs > 0 && streamTicks < 1<<31 && delayTicks > 2*streamTicks+90000
+	complete := permutation && withinMaxLate && (c.DelayMs == 0 || generousDelay) && c.Depack != 3
+	if generousDelay {
+		v.Label("time-delay:larger-than-stream")
+	}
 	switch {
 	case losses > 0:
 		v.Label("loss")
@@ -389,22 +400,33 @@ func vfC31Run(v *vfT, c vfC31Case) {
 	flush := true
 	if c.DelayMs > 0 && span > 0 {
 		clean := span <= len(pkts)+1
-		for i := sb.filled.head; clean && i != sb.filled.tail; i++ {
+		// packets before active.head are consumed leftovers: Flush just releases them one by one
+		start := sb.filled.head
+		switch {
+		case !sb.active.empty():
+			start = sb.active.head
+			clean = clean && sb.filled.compare(start) == slCompareInside
+		case sb.lastSampleTimestamp != nil:
+			clean = false // everything consumed: leftovers would be re-read as a run without a head
+		}
+		for i := start; clean && i != sb.filled.tail; i++ {
 			clean = sb.buffer[i] != nil
 		}
 		if clean {
-			first, last := sb.buffer[sb.filled.head], sb.buffer[sb.filled.tail-1]
+			first, last := sb.buffer[start], sb.buffer[sb.filled.tail-1]
 			// ... and the last frame must be a single packet: after the last frame of >=2 packets is
 			// built its not-yet-released tail packet is taken for a run without a head, which is
 			// the overshoot described above (this happens on perfectly clean streams too)
 			clean = dep.IsPartitionHead(first.Payload) && dep.IsPartitionTail(last.Marker, last.Payload) && dep.IsPartitionHead(last.Payload)
-			if clean && !sb.active.empty() && sb.buffer[sb.active.head] != nil {
-				clean = dep.IsPartitionHead(sb.buffer[sb.active.head].Payload)
-			}
 		}
 		if !clean {
 			flush = false
 			v.Label("time-delay:flush-skipped(stall guard)")
+			if complete {
+				// without Flush the tail of the stream cannot be expected: completeness not asserted
+				complete = false
+				v.Label("completeness-not-asserted:flush-skipped(stall guard)")
+			}
 		}
 	}
 	if flush {
@@ -429,6 +451,9 @@ func vfC31Run(v *vfT, c vfC31Case) {
 	}
 
 	// ---- completeness ----
+	if complete && generousDelay {
+		v.Label("completeness-asserted:with-time-delay")
+	}
 	if complete {
 		got := map[int]int{} // first index -> last index
 		for _, r := range emitted {
@@ -460,7 +485,91 @@ func vfC31Run(v *vfT, c vfC31Case) {
 	}
 }
 
+// vfC31GenWrapDelay draws loss-free, duplicate-free streams whose RTP timestamps cross
+// 0xFFFFFFFF -> 0 somewhere inside the stream, with WithMaxTimeDelay set well above the whole
+// stream's duration and with small reorderings (adjacent swaps) placed exactly at the wrap.  By
+// the statement nothing is too old here, so completeness is asserted.  The last frame is a
+// single packet so that the final Flush is not subject to the stall guard.
+func vfC31GenWrapDelay(v *vfT) vfC31Case {
+	var c vfC31Case
+	v.Label("gen:timestamp-wrap+generous-time-delay")
+	nf := rapid.IntRange(3, 20).Draw(v.R, "nframes")
+	var cum []uint64 // cum[i] = timestamp advance of frame i relative to frame 0
+	var firstIdx []int
+	total := 0
+	adv := uint64(0)
+	for i := 0; i < nf; i++ {
+		f := vfC31Frame{N: rapid.IntRange(1, 5).Draw(v.R, "n"), TSStep: rapid.SampledFrom([]uint32{1, 2, 960, 3000, 3003, 90000}).Draw(v.R, "tsstep")}
+		if i == nf-1 {
+			f.N = 1
+		}
+		if i > 0 {
+			adv += uint64(f.TSStep)
+		}
+		cum = append(cum, adv)
+		firstIdx = append(firstIdx, total)
+		total += f.N
+		c.Frames = append(c.Frames, f)
+	}
+	// the wrap falls between frame w-1 and frame w
+	w := rapid.IntRange(1, nf-1).Draw(v.R, "wrapFrame")
+	r := uint64(rapid.IntRange(0, int(c.Frames[w].TSStep)-1).Draw(v.R, "postWrapTS")) // timestamp of frame w (just after the wrap)
+	c.TS0 = uint32(r - cum[w])                                                         // mod 2^32
+	c.Start = rapid.SampledFrom([]uint16{0, 1000, 65530, 32760}).Draw(v.R, "start")
+	if rapid.Bool().Draw(v.R, "startWrapToo") {
+		c.Start = uint16(65536 - firstIdx[w]) // sequence numbers wrap at the same place
+	}
+	c.Depack = rapid.SampledFrom([]int{0, 1, 2}).Draw(v.R, "depack")
+	c.MaxLate = uint16(rapid.SampledFrom([]int{16, 32, 50, 100}).Draw(v.R, "maxLate"))
+	c.DelayMs = int((2*adv+90000)*1000/90000) + 1000 + rapid.IntRange(0, 5000).Draw(v.R, "delaySlack")
+	// delivery: identity plus adjacent swaps at the wrap (and a few elsewhere)
+	for i := 0; i < total; i++ {
+		c.Delivery = append(c.Delivery, i)
+	}
+	b := firstIdx[w] // first post-wrap packet
+	swap := func(i int) {
+		if i >= 1 && i+1 < total { // never move the stream's first packet (that is a recorded known class)
+			c.Delivery[i], c.Delivery[i+1] = c.Delivery[i+1], c.Delivery[i]
+		}
+	}
+	switch rapid.IntRange(0, 4).Draw(v.R, "swapAt") {
+	case 0, 1:
+		swap(b - 1) // last pre-wrap packet <-> first post-wrap packet
+	case 2:
+		swap(b - 1)
+		swap(b) // the first post-wrap packet overtakes two
+	case 3:
+		swap(b - 2)
+		swap(b - 1)
+	default: // no reordering at the wrap
+	}
+	for k := rapid.IntRange(0, 2).Draw(v.R, "extraSwaps"); k > 0; k-- {
+		i := rapid.IntRange(1, total).Draw(v.R, "extraSwapAt")
+		if i < b-3 || i > b+3 {
+			swap(i)
+		}
+	}
+	switch rapid.IntRange(0, 3).Draw(v.R, "popMode") {
+	case 0:
+		c.Pops = []int{0}
+		v.Label("pop:only-at-end")
+	case 1:
+		c.Pops = []int{1}
+		v.Label("pop:after-every-push")
+	case 2:
+		c.Pops = []int{3}
+		v.Label("pop:until-empty-after-every-push")
+	default:
+		c.Pops = []int{0, 2, 1}
+		v.Label("pop:irregular")
+	}
+	return c
+}
+
 func vfC31Gen(v *vfT) vfC31Case {
+	if rapid.IntRange(0, 3).Draw(v.R, "genMode") == 0 {
+		return vfC31GenWrapDelay(v)
+	}
 	var c vfC31Case
 	nf := rapid.SampledFrom([]int{1, 2, 3, 5, 8, 12, 20, 40}).Draw(v.R, "nframes")
 	if rapid.Bool().Draw(v.R, "nfRand") {
